@@ -58,6 +58,35 @@ func materialSections(r *vlib.Run) {
 			}
 			c.Count("mat.joined.retuned_after_use", 1)
 		}
+		// emission and ambient terms: what the fields say; a mixture emits the sum of its parts
+		{
+			ec, ac := render3d.NewColorRGB(rng.Float64(), rng.Float64(), rng.Float64()), render3d.NewColorRGB(rng.Float64(), rng.Float64(), rng.Float64())
+			var setEmit func(mm render3d.Material) (render3d.Color, render3d.Color)
+			setEmit = func(mm render3d.Material) (render3d.Color, render3d.Color) {
+				switch x := mm.(type) {
+				case *render3d.LambertMaterial:
+					x.EmissionColor, x.AmbientColor = ec, ac
+					return ec, ac
+				case *render3d.PhongMaterial:
+					x.EmissionColor, x.AmbientColor = ec.Scale(0.5), ac.Scale(0.25)
+					return ec.Scale(0.5), ac.Scale(0.25)
+				case *render3d.JoinedMaterial:
+					var se, sa render3d.Color
+					for _, sub := range x.Materials {
+						e, a := setEmit(sub)
+						se, sa = se.Add(e), sa.Add(a)
+					}
+					return se, sa
+				}
+				return render3d.Color{}, render3d.Color{}
+			}
+			we, wa := setEmit(lib)
+			c.Count("mat.emission_ambient_checked", 1)
+			if ge, ga := lib.Emission(), lib.Ambient(); ge.Dist(we) > 1e-12 || ga.Dist(wa) > 1e-12 {
+				c.Violation("render3d."+m.typeName()+".Emission/fields", fmt.Sprintf("Emission()=%v Ambient()=%v, the fields give %v and %v", ge, ga, we, wa), caseWitness(m, n, fixed, fk, "emission"))
+				return
+			}
+		}
 		typ := "render3d." + m.typeName()
 		tag := "mat." + m.Kind
 		mode := c.Index / len(matKinds) % 2
